@@ -201,6 +201,8 @@ tr!(c13_t_trunc_shp_polyline_3_t180_189, Polyline, 224, [PL3], 180, 189);
 tr!(c13_t_trunc_shp_polyline_3_t190_199, Polyline, 224, [PL3], 190, 199);
 // H: tier=thorough; unwind=34; sym=payload of a Polyline [3] (file of 204 bytes: header 0..100, record header 100..108, type 108..112, box 112..144, counts 144..152, part array 152..156, points 156..204); truncation=every t in 200..=204 (concrete loop); asserts=as trunc_shp_point_2
 tr!(c13_t_trunc_shp_polyline_3_t200_204, Polyline, 224, [PL3], 200, 204);
+// H: tier=quick; unwind=34; sym=payload of a PolylineM [2] (220 bytes: ..., M range 188..204, M array 204..220); truncation=every t in 200..=212 (inside the M range and the M array); asserts=the cut record is Some(Err(IoError)): a cut inside the optional M block is not mistaken for "no M block" and no measure is invented
+tr!(c13_q_trunc_shp_polylinem_2_t200_212, PolylineM, 256, [PL2], 200, 212);
 // H: tier=thorough; unwind=34; sym=truncation length t (symbolic), payload of 2 PointZ; asserts=as trunc_shp_point_2
 #[kani::proof]
 #[kani::unwind(34)]
